@@ -1,15 +1,31 @@
 // Command c13 is the runtime-monitoring check for property C13: "bans are
 // exact, durable and enforced".
 //
-// Store half (internal/c13): the real banman.Store over a real bbolt database
-// is driven with seeded ban / unban / status / reopen sequences over many
-// spellings of IPv4 and IPv6 addresses, and every Status answer is compared
-// with a reference model keyed by the canonical network prefix.
+// Store half (internal/c13 store.go ...): the real banman.Store over a real
+// bbolt database is driven with seeded ban / unban / status / reopen
+// sequences over many spellings of IPv4 and IPv6 addresses, and every Status
+// answer is compared with a reference model keyed by the canonical network
+// prefix.
 //
-// Enforcement half (network simulation): added later into this same program.
+// Enforcement half (internal/c13 enf*.go, engine L2): the complete real
+// ChainService against scripted wire peers — peers without the required
+// service bits, provable filter-header / filter-checkpoint liars, an
+// invalid-block server, and honest-class peers as negative control — with an
+// oracle over the ban store, IsBanned and the per-address connection
+// timeline ("the client does not keep a connection to a banned address").
+//
+// Both halves report into one evidence file (enforcement counters carry the
+// prefix enf_); the run only counts when BOTH halves observed enough.
+//
+//	c13 -tier quick|thorough -seed N
+//	c13 -c13-enf-only            only the enforcement half
+//	c13 -c13-enf-k K             scenario K of the enforcement half, in-process, result printed
+//	c13 -c13-seq N | -c13-timed-only   store-half reproduction (enforcement half skipped)
 package main
 
 import (
+	"fmt"
+
 	"verif/internal/c13"
 	"verif/internal/evid"
 )
@@ -17,11 +33,27 @@ import (
 func main() {
 	r := evid.New("C13", "exploration")
 
-	c13.StorePart(r)
+	// A scenario child of the enforcement half runs its scenario and exits.
+	c13.EnforcementChild(r)
 
-	// enforcementPart(r) — added later: peers banned + disconnected in the
-	// network simulation. It reports into the same Run; raise the floor
-	// below by its own minimum when it lands.
-
-	r.Finish(c13.StoreMinDistinct)
+	floor := 0
+	if !c13.EnforcementOnly() {
+		c13.StorePart(r)
+		floor += c13.StoreMinDistinct
+	}
+	if !c13.StoreOnly() {
+		t := c13.EnforcementPart(r)
+		if ok, why := t.EnforcementFloorMet(); !ok {
+			// The store half alone reaches thousands of shapes: make sure a
+			// silent enforcement half cannot hide behind it.
+			fmt.Println("C13: " + why)
+			r.Inconclusive(why)
+			floor = 1 << 30
+		} else {
+			// Enforcement fingerprints all start with "enf/" (disjoint from
+			// the store half's), so this floor needs both halves.
+			floor += t.Distinct
+		}
+	}
+	r.Finish(floor)
 }
